@@ -1,6 +1,7 @@
 package zzverif
 
 import (
+	cog "github.com/grafana/cog"
 	"context"
 	"encoding/json"
 	"fmt"
@@ -364,6 +365,53 @@ func rerunSamePipeline(dir string, w *Workload) (string, []string, *Exec) {
 	return componentClass(d), d, ex
 }
 
+// facadeFiles runs the workload's CUE entry point (the input that declares cue_imports)
+// through the library facade - cog.TypesFromSchema().CUEModule(..., CUEImports(map), ...) -
+// the one caller that builds the list of imports from a Go map.
+func facadeFiles(dir string, w *Workload, sched simrt.Schedule) (map[string]string, *Exec) {
+	_ = os.RemoveAll(dir)
+	must(os.MkdirAll(dir, 0o755))
+	_, err := w.Materialise(dir)
+	must(err)
+	var main *InputSpec
+	for i := range w.Inputs {
+		if len(w.Inputs[i].CueImports) > 0 {
+			main = &w.Inputs[i]
+		}
+	}
+	out := map[string]string{}
+	if main == nil {
+		return out, &Exec{}
+	}
+	imports := map[string]string{}
+	for _, ci := range main.CueImports {
+		if rel, imp, ok := strings.Cut(ci, ":"); ok {
+			imports[imp] = filepath.Join(dir, rel)
+		}
+	}
+	CurrentDesc.Store("C03 facade " + w.Name)
+	ex := Simulate(sched, nil, pipelineMaxTicks, func() error {
+		resetGlobals()
+		files, err := cog.TypesFromSchema().
+			CUEModule(filepath.Join(dir, main.Path), cog.CUEImports(imports), cog.PreserveExternalReferences()).
+			Golang(cog.GoConfig{}).
+			Run(context.Background())
+		if err != nil {
+			out["run.status"] = "fail"
+			return nil
+		}
+		out["run.status"] = "ok"
+		for _, f := range files {
+			out["file:"+f.RelativePath] = Sha(f.Data)
+		}
+		return nil
+	})
+	if ex.Panic != nil {
+		out = map[string]string{"run.status": "fail"}
+	}
+	return out, ex
+}
+
 func init() {
 	opts := RunOpts{Generate: true, Inspect: true}
 	Register(&Property{
@@ -391,6 +439,8 @@ func init() {
 				w = GenFactoriesWorkload(r)
 			} else if idx%16 == 11 {
 				w = GenSharedOptionWorkload(r)
+			} else if idx%16 == 9 {
+				w = GenFoldedDefaultsWorkload(r)
 			} else if r.Chance(2, 3) {
 				EnrichWorkload(r.Fork("enrich"), w, dir)
 			}
@@ -479,6 +529,26 @@ func init() {
 					fmt.Fprintf(os.Stderr, "determinism mismatch: case %d workload %s: log %x vs %x diff %v\n", idx, w.Name, ea.LogHash, eb.LogHash, DiffSummaries(sa, sb))
 				}
 			}
+			// the library facade on the scenario that has CUE libraries
+			if strings.HasPrefix(w.Name, "cue-imports") {
+				base := simrt.Schedule{Default: simrt.Canonical}
+				f0, x0 := facadeFiles(dir, w, base)
+				ctx.Account(x0)
+				res.Execs++
+				for _, alt := range []simrt.Schedule{{Default: simrt.Reverse, Seed: r.U64()}, {Default: simrt.Shuffle, Seed: r.U64()}} {
+					f1, x1 := facadeFiles(dir, w, alt)
+					ctx.Account(x1)
+					res.Execs++
+					if d := DiffSummaries(f0, f1); len(d) > 0 {
+						res.Violations = append(res.Violations, Violation{
+							Key:     "facade|" + componentClass(d),
+							What:    fmt.Sprintf("cog.TypesFromSchema().CUEModule(..., CUEImports(map)) gives different files under schedule %s (workload %s): %v", alt.Default, w.Name, firstN(d, 6)),
+							Payload: c03Payload{W: w, Alt: alt, Mode: "facade", Component: componentClass(d), Differs: firstN(d, 20)},
+						})
+						break
+					}
+				}
+			}
 			// history variant: the same Pipeline value runs twice
 			if idx%5 == 0 {
 				comp, d, ex := rerunSamePipeline(dir, w)
@@ -502,6 +572,14 @@ func init() {
 			must(json.Unmarshal(payload, &p))
 			dir := filepath.Join(ctx.Dirs.Root, "replay")
 			defer os.RemoveAll(dir)
+			if p.Mode == "facade" {
+				f0, _ := facadeFiles(dir, p.W, simrt.Schedule{Default: simrt.Canonical})
+				f1, _ := facadeFiles(dir, p.W, p.Alt)
+				if d := DiffSummaries(f0, f1); len(d) > 0 {
+					return "facade|" + componentClass(d), fmt.Sprint(firstN(d, 6))
+				}
+				return "", ""
+			}
 			if p.Mode == "rerun" {
 				comp, d, _ := rerunSamePipeline(dir, p.W)
 				if comp == "" {
